@@ -59,12 +59,14 @@ def main():
                 patch = f"{d}/{x}.rebased.diff" if os.path.exists(f"{d}/{x}.rebased.diff") else f"{d}/{x}.diff"
                 if os.path.exists(patch):
                     todo.append((pid + x, pid, patch, f"{d}/demo_{x}.py", f"{d}/NOTES.md"))
-    elif "--from-tmp2" in sys.argv:      # second round: /tmp/mutants2/<pid>/{a,b}.diff are stored as <pid>c / <pid>d
-        for pid in sorted(os.listdir("/tmp/mutants2")):
-            d = f"/tmp/mutants2/{pid}"
+    elif "--from-tmp2" in sys.argv or "--from-tmp3" in sys.argv:
+        # later rounds: /tmp/mutants2/<pid>/{a,b}.diff are stored as <pid>c / <pid>d, /tmp/mutants3/... as <pid>e / <pid>f
+        rdir, letters = ("/tmp/mutants2", "cd") if "--from-tmp2" in sys.argv else ("/tmp/mutants3", "ef")
+        for pid in sorted(os.listdir(rdir)):
+            d = f"{rdir}/{pid}"
             if not os.path.isdir(d):
                 continue
-            for x, y in (("a", "c"), ("b", "d")):
+            for x, y in (("a", letters[0]), ("b", letters[1])):
                 patch = f"{d}/{x}.rebased.diff" if os.path.exists(f"{d}/{x}.rebased.diff") else f"{d}/{x}.diff"
                 if os.path.exists(patch) and os.path.exists(f"{d}/demo_{x}.py"):
                     todo.append((pid + y, pid, patch, f"{d}/demo_{x}.py", f"{d}/NOTES.md"))
@@ -94,7 +96,7 @@ def main():
         needs = ""
         if os.path.exists(f"{dst}/NOTES.md"):
             txt = open(f"{dst}/NOTES.md").read()
-            letter = "A" if sid[-1] in "ac" else "B"
+            letter = "A" if sid[-1] in "ace" else "B"
             m = re.search(rf"(?ms)^## Change {letter}\b(.*?)(?=^## |\Z)", txt)
             section = (m.group(0) if m else txt).strip()
             paras = [p.strip() for p in re.split(r"\n\s*\n", section)]
